@@ -1,5 +1,7 @@
 import DendroModel.Model.C20
 import DendroModel.Theory.C20Nexus
+import DendroModel.Theory.C20Fuel
+import DendroModel.Gen.C20Consts
 /-! C20 — property theorems about the reader models the driver runs (`drv_c20`).
 
 Clause (a) "every reader terminates": all model functions are total Lean functions defined without fuel and without
@@ -978,8 +980,6 @@ theorem ensureNs_post (s : RS) : Post (ensureNs s) (fun s' => s'.rest = s.rest) 
     exact Post.pure h
 macro_rules | `(tactic| pbind) => `(tactic| refine Post.bind (ensureNs_post _) ?_)
 
-theorem ensureMapper_rest (s : RS) : (ensureMapper s).rest = s.rest := by
-  unfold ensureMapper; split <;> rfl
 
 theorem parseTranslate_post (s : RS) : Post (parseTranslate s) (LeQ s) := by
   unfold parseTranslate
@@ -1033,10 +1033,6 @@ theorem parseTreeStatement_post (s : RS) : Post (parseTreeStatement s) (fun s' =
         omega
 macro_rules | `(tactic| pbind) => `(tactic| refine Post.bind (parseTreeStatement_post _) ?_)
 
-theorem startTreeList_rest (s : RS) : (startTreeList s).rest = s.rest := by
-  unfold startTreeList; split <;> rfl
-theorem closeMapper_rest (s : RS) : (closeMapper s).rest = s.rest := by
-  unfold closeMapper; split <;> rfl
 
 theorem treesBlock_post (s : RS) : Post (treesBlock s) (LeQ s) := by
   unfold treesBlock
@@ -1111,14 +1107,7 @@ theorem fmtDatatype_post (s : RS) : Post (fmtDatatype s) (BodyQ s) := by
     rename_i t3 s3 h3
     refine Post.pure ?_
     simp only [BodyQ]
-    have : ∀ (x : RS), (if t2 == kw "DNA" || t2 == kw "NUCLEOTIDES" then { x with dataType := DT.dna }
-        else if t2 == kw "RNA" then { x with dataType := .rna }
-        else if t2 == kw "NUCLEOTIDE" then { x with dataType := .nucleotide }
-        else if t2 == kw "PROTEIN" then { x with dataType := .protein }
-        else if t2 == kw "CONTINUOUS" then { x with dataType := .continuous }
-        else { x with dataType := .standard, symbols := kw "0123456789" }).rest = x.rest := by
-      intro x; (repeat' split) <;> rfl
-    rw [this] at h3
+    try dsimp only at h3
     exact ⟨by omega, fun _ => by omega⟩
 
 theorem fmtSymbolsLoop_post (s : RS) : Post (fmtSymbolsLoop s) (LeQ s) := by
@@ -1674,14 +1663,17 @@ theorem skipToBegin_post (s : RS) (hne : s.rest ≠ []) : Post (skipToBegin s) (
   unfold skipToBegin
   rw [iter]
   split
+  · exact ⟨fun w hw => (by cases hw), fun a ha => (by cases ha)⟩
+  have hne' : ({ s with fuel := s.fuel - 1 } : RS).rest ≠ [] := hne
+  split
   · rename_i e he
     refine ⟨fun w hw => ?_, fun a ha => (by cases ha)⟩
     cases hw
-    exact (skipToBegin_body s).1 w he
+    exact (skipToBegin_body _).1 w he
   · rename_i s1 he
-    exact Post.ok ((skipToBegin_body_lt s hne).2 _ he)
+    exact Post.ok ((skipToBegin_body_lt _ hne').2 _ he)
   · rename_i s1 he
-    have h2 := (skipToBegin_body_lt s hne).2 _ he
+    have h2 := (skipToBegin_body_lt _ hne').2 _ he
     try dsimp only at h2
     rw [if_pos h2]
     refine Post.mono (iter_post _ skipToBegin_body s1) ?_
@@ -1731,6 +1723,300 @@ theorem readNexus_post (sy : Syms) (text : List Char) : Post (readNexus sy text)
 
 end DendroModel.C20.Aux
 
+namespace DendroModel.C20.Aux
+open DendroModel DendroModel.C20
+
+/-! ### the budget of loop rounds: every function of the reader with its constants `(a, b)` (Hoare rules in Theory/C20Fuel.lean) -/
+theorem skipToSemi_fuel (s : RS) (h : 1 * s.rest.length + 1 ≤ s.fuel) : FPost (skipToSemi s) (FQ 1 1 s) := by
+  unfold skipToSemi
+  refine FPost.mono (iter_fuel 0 0 _ (fun s hs => ?_) s (by fside)) (fun a ha => by fside)
+  fauto
+macro_rules | `(tactic| fbind) => `(tactic| refine FPost.bind (skipToSemi_fuel _ (by fside)) ?_)
+macro_rules | `(tactic| ftail) => `(tactic| refine FPost.mono (skipToSemi_fuel _ (by fside)) (fun a ha => by fside))
+
+theorem consumeToEnd_fuel (token : Option (List Char)) (s : RS) (h : 3 * s.rest.length + 2 ≤ s.fuel) :
+    FPost (consumeToEnd token s) (FQ 3 2 s) := by
+  unfold consumeToEnd
+  refine FPost.mono (iter_fuel 1 1 _ (fun s hs => ?_) _ (by fside)) (fun a ha => by fside)
+  fauto
+
+theorem parseTitle_fuel (s : RS) : FPost (parseTitle s) (FE s) := by
+  unfold parseTitle
+  fauto
+macro_rules | `(tactic| fbind) => `(tactic| refine FPost.bind (parseTitle_fuel _) ?_)
+macro_rules | `(tactic| ftail) => `(tactic| refine FPost.mono (parseTitle_fuel _) (fun a ha => by fside))
+
+theorem parseDimensions_fuel (s : RS) (h : 1 * s.rest.length + 1 ≤ s.fuel) : FPost (parseDimensions s) (FQ 1 1 s) := by
+  unfold parseDimensions
+  fb
+  refine FPost.mono (iter_fuel 0 0 _ (fun s hs => ?_) _ (by fside)) (fun a ha => by fside)
+  fauto
+macro_rules | `(tactic| fbind) => `(tactic| refine FPost.bind (parseDimensions_fuel _ (by fside)) ?_)
+macro_rules | `(tactic| ftail) => `(tactic| refine FPost.mono (parseDimensions_fuel _ (by fside)) (fun a ha => by fside))
+
+theorem parseTaxlabels_fuel (i : Nat) (s : RS) (h : 1 * s.rest.length + 1 ≤ s.fuel) : FPost (parseTaxlabels i s) (FQ 1 1 s) := by
+  unfold parseTaxlabels
+  fb
+  refine FPost.mono (iter_fuel 0 0 _ (fun s hs => ?_) _ (by fside)) (fun a ha => by fside)
+  fauto
+macro_rules | `(tactic| fbind) => `(tactic| refine FPost.bind (parseTaxlabels_fuel _ _ (by fside)) ?_)
+macro_rules | `(tactic| ftail) => `(tactic| refine FPost.mono (parseTaxlabels_fuel _ _ (by fside)) (fun a ha => by fside))
+
+theorem parseLink_fuel (s : RS) (h : 1 * s.rest.length + 1 ≤ s.fuel) : FPost (parseLink s) (FQ 1 1 s) := by
+  unfold parseLink
+  fb
+  refine FPost.mono (iter_fuel 0 0 _ (fun s hs => ?_) _ (by fside)) (fun a ha => by fside)
+  fauto
+macro_rules | `(tactic| fbind) => `(tactic| refine FPost.bind (parseLink_fuel _ (by fside)) ?_)
+macro_rules | `(tactic| ftail) => `(tactic| refine FPost.mono (parseLink_fuel _ (by fside)) (fun a ha => by fside))
+
+theorem getTns_fuel (title : Option (List Char)) (s : RS) : FPost (getTns title s) (fun p => FE s p.2) := by
+  unfold getTns
+  fauto
+macro_rules | `(tactic| fbind) => `(tactic| refine FPost.bind (getTns_fuel _ _) ?_)
+macro_rules | `(tactic| ftail) => `(tactic| refine FPost.mono (getTns_fuel _ _) (fun a ha => by fside))
+
+theorem taxaBlock_fuel (s : RS) (h : 4 * s.rest.length + 5 ≤ s.fuel) : FPost (taxaBlock s) (FQ 4 5 s) := by
+  unfold taxaBlock
+  fb
+  refine FPost.bind (iter_fuel 1 2 _ (fun s hs => ?_) _ (by fside)) (fun a ha => ?_)
+  · fauto
+  · fauto
+
+theorem ensureNs_fuel (s : RS) : FPost (ensureNs s) (FE s) := by
+  unfold ensureNs
+  fauto
+macro_rules | `(tactic| fbind) => `(tactic| refine FPost.bind (ensureNs_fuel _) ?_)
+macro_rules | `(tactic| ftail) => `(tactic| refine FPost.mono (ensureNs_fuel _) (fun a ha => by fside))
+
+theorem parseTranslate_fuel (s : RS) (h : 1 * s.rest.length + 1 ≤ s.fuel) : FPost (parseTranslate s) (FQ 1 1 s) := by
+  unfold parseTranslate
+  refine FPost.mono (iter_fuel 0 0 _ (fun s hs => ?_) _ (by fside)) (fun a ha => by fside)
+  fauto
+macro_rules | `(tactic| fbind) => `(tactic| refine FPost.bind (parseTranslate_fuel _ (by fside)) ?_)
+macro_rules | `(tactic| ftail) => `(tactic| refine FPost.mono (parseTranslate_fuel _ (by fside)) (fun a ha => by fside))
+
+theorem parseTreeStatement_fuel (s : RS) : FPost (parseTreeStatement s) (FE s) := by
+  unfold parseTreeStatement
+  fb
+  rename_i t1 s1 h1
+  refine FPost.bind (Q1 := fun p => FE s p.2) ?_ ?_
+  · split
+    · refine FPost.mono (nextTok_fuel _) (fun a ha => by fside)
+    · exact FPost.pure h1
+  · intro p hp
+    rcases p with ⟨t2, s2⟩
+    try dsimp only at *
+    fb
+    rename_i t3 s3 h3
+    split
+    · ffin
+    · fb
+      rename_i t4 s4 h4
+      split
+      · ffin
+      · ffin
+      · rename_i tr nx rest' m' trace hps
+        have := newick_statement_progress _ _ _ _ _ _ _ _ _ _ hps
+        refine FPost.pure ?_
+        fside
+macro_rules | `(tactic| fbind) => `(tactic| refine FPost.bind (parseTreeStatement_fuel _) ?_)
+
+theorem treesBlock_fuel (s : RS) (h : 3 * s.rest.length + 4 ≤ s.fuel) : FPost (treesBlock s) (FQ 3 4 s) := by
+  unfold treesBlock
+  fb
+  refine FPost.bind (iter_fuel 1 1 _ (fun s hs => ?_) _ (by fside)) (fun a ha => ?_)
+  · try dsimp only
+    refine FPost.ite (by ffin) ?_
+    fb
+    refine FPost.ite (by fauto) ?_
+    refine FPost.ite (by fauto) ?_
+    refine FPost.ite (by fauto) ?_
+    refine FPost.ite ?_ (by fauto)
+    fb
+    refine FPost.bind (iter_fuel 0 0 _ (fun s hs => ?_) _ (by fside)) (fun a ha => ?_)
+    · fauto
+    · fauto
+  · fauto
+
+theorem fmtDatatype_fuel (s : RS) : FPost (fmtDatatype s) (fun p => FE s p.2) := by
+  unfold fmtDatatype
+  fauto
+
+theorem fmtSymbolsLoop_fuel (s : RS) (h : 1 * s.rest.length + 1 ≤ s.fuel) : FPost (fmtSymbolsLoop s) (FQ 1 1 s) := by
+  unfold fmtSymbolsLoop
+  refine FPost.mono (iter_fuel 0 0 _ (fun s hs => ?_) _ (by fside)) (fun a ha => by fside)
+  fauto
+macro_rules | `(tactic| fbind) => `(tactic| refine FPost.bind (fmtSymbolsLoop_fuel _ (by fside)) ?_)
+macro_rules | `(tactic| ftail) => `(tactic| refine FPost.mono (fmtSymbolsLoop_fuel _ (by fside)) (fun a ha => by fside))
+
+theorem fmtSymbols_fuel (s : RS) (h : 1 * s.rest.length + 1 ≤ s.fuel) : FPost (fmtSymbols s) (fun p => FQ 1 1 s p.2) := by
+  unfold fmtSymbols
+  fauto
+
+theorem fmtAssign_fuel (f : Nat) (s : RS) : FPost (fmtAssign f s) (fun p => FE s p.2) := by
+  unfold fmtAssign
+  fauto
+
+theorem fmtInterleave_fuel (s : RS) : FPost (fmtInterleave s) (fun p => FE s p.2) := by
+  unfold fmtInterleave
+  fauto
+
+theorem parseFormat_fuel (s : RS) (h : 3 * s.rest.length + 2 ≤ s.fuel) : FPost (parseFormat s) (FQ 3 2 s) := by
+  unfold parseFormat
+  fb
+  refine FPost.mono (iter_fuel 1 1 _ (fun s hs => ?_) _ (by fside)) (fun a ha => by fside)
+  try dsimp only
+  refine FPost.ite (by ffin) ?_
+  refine FPost.ite (FPost.mono (fmtDatatype_fuel s) (fun p hp => by fside)) ?_
+  refine FPost.ite (FPost.mono (fmtSymbols_fuel s (by fside)) (fun p hp => by fside)) ?_
+  refine FPost.ite (FPost.mono (fmtAssign_fuel _ s) (fun p hp => by fside)) ?_
+  refine FPost.ite (FPost.mono (fmtInterleave_fuel s) (fun p hp => by fside)) ?_
+  refine FPost.ite (FPost.mono (fmtAssign_fuel _ s) (fun p hp => by fside)) ?_
+  refine FPost.ite (FPost.mono (fmtAssign_fuel _ s) (fun p hp => by fside)) ?_
+  fauto
+macro_rules | `(tactic| fbind) => `(tactic| refine FPost.bind (parseFormat_fuel _ (by fside)) ?_)
+macro_rules | `(tactic| ftail) => `(tactic| refine FPost.mono (parseFormat_fuel _ (by fside)) (fun a ha => by fside))
+
+theorem symbolTest_fuel (sy : Syms) (s : RS) : FPost (symbolTest sy s) (fun _ => True) := by
+  unfold symbolTest
+  split
+  · exact FPost.pure trivial
+  · exact FPost.pure trivial
+  · exact FPost.pure trivial
+  · exact FPost.pure trivial
+  · exact FPost.pure trivial
+  · dsimp only
+    exact FPost.ite (FPost.perr _) (FPost.ite (FPost.perr _) (FPost.pure trivial))
+
+theorem cellsOf_fuel (symOk : Char → Bool) (matchc : List (List Char)) (firstLen : Option Nat) (base nchar : Nat) :
+    ∀ (cs : List Char) (n : Nat), FPost (cellsOf symOk matchc firstLen base nchar cs n) (fun _ => True)
+  | [], n => by unfold cellsOf; exact FPost.pure trivial
+  | c :: cs, n => by
+    unfold cellsOf
+    try dsimp only
+    exact FPost.ite (FPost.perr _) (FPost.ite (FPost.perr _) (cellsOf_fuel symOk matchc firstLen base nchar cs (n + 1)))
+
+theorem readStates_fuel (symOk : Char → Bool) (r : Nat) (s : RS) (h : 3 * s.rest.length + 2 ≤ s.fuel) :
+    FPost (readStates symOk r s) (FQ 3 2 s) := by
+  unfold readStates
+  refine FPost.ite (FPost.internal _) ?_
+  try dsimp only
+  refine FPost.bind (iter_fuel 1 1 _ (fun s hs => ?_) _ (by fside)) (fun a ha => ?_)
+  · try dsimp only
+    refine FPost.ite (by ffin) ?_
+    fb
+    refine FPost.ite ?_ ?_
+    · refine FPost.bind (iter_fuel 0 0 _ (fun s hs => ?_) _ (by fside)) (fun a ha => ?_)
+      · fauto
+      · fauto
+    · refine FPost.ite (by ffin) ?_
+      refine FPost.ite (by ffin) ?_
+      refine FPost.ite (FPost.ite (by ffin) (by ffin)) ?_
+      refine FPost.bind (cellsOf_fuel _ _ _ _ _ _ _) (fun n _ => ?_)
+      ffin
+  · fauto
+macro_rules | `(tactic| fbind) => `(tactic| refine FPost.bind (readStates_fuel _ _ _ (by fside)) ?_)
+
+theorem rowFor_fuel (i : Nat) (label : List Char) (s : RS) : FPost (rowFor i label s) (fun p => FE s p.2) := by
+  unfold rowFor
+  fauto
+macro_rules | `(tactic| fbind) => `(tactic| refine FPost.bind (rowFor_fuel _ _ _) ?_)
+
+theorem matrixRows_fuel (symOk : Char → Bool) (i nchar : Nat) (s : RS) (h : 6 * s.rest.length + 3 ≤ s.fuel) :
+    FPost (matrixRows symOk i nchar s) (FQ 6 3 s) := by
+  unfold matrixRows
+  refine FPost.mono (iter_fuel 3 2 _ (fun s hs => ?_) _ (by fside)) (fun a ha => by fside)
+  fauto
+macro_rules | `(tactic| fbind) => `(tactic| refine FPost.bind (matrixRows_fuel _ _ _ _ (by fside)) ?_)
+
+theorem matrixCheck_fuel (nchar : Nat) (s : RS) : FPost (matrixCheck nchar s) (FE s) := by
+  unfold matrixCheck
+  fauto
+macro_rules | `(tactic| ftail) => `(tactic| refine FPost.mono (matrixCheck_fuel _ _) (fun a ha => by fside))
+
+theorem parseMatrix_fuel (sy : Syms) (s : RS) (h : 6 * s.rest.length + 3 ≤ s.fuel) : FPost (parseMatrix sy s) (FQ 6 3 s) := by
+  unfold parseMatrix
+  refine FPost.ite (FPost.perr _) ?_
+  fb
+  refine FPost.bind (symbolTest_fuel _ _) (fun symOk _ => ?_)
+  fauto
+macro_rules | `(tactic| fbind) => `(tactic| refine FPost.bind (parseMatrix_fuel _ _ (by fside)) ?_)
+
+theorem charsBlock_fuel (sy : Syms) (s : RS) (h : 10 * s.rest.length + 6 ≤ s.fuel) : FPost (charsBlock sy s) (FQ 10 6 s) := by
+  unfold charsBlock
+  fb
+  refine FPost.bind (iter_fuel 6 3 _ (fun s hs => ?_) _ (by fside)) (fun a ha => ?_)
+  · fauto
+  · fauto
+
+theorem getCharMatrix_fuel (title : Option (List Char)) (s : RS) : FPost (getCharMatrix title s) (fun _ => True) := by
+  unfold getCharMatrix
+  split
+  · exact FPost.ite (FPost.perr _) (FPost.pure trivial)
+  · dsimp only
+    split
+    · exact FPost.pure trivial
+    · exact FPost.perr _
+
+theorem positionsRange_fuel (start max : Nat) (s : RS) : FPost (positionsRange start max s) (fun p => FE s p.2) := by
+  unfold positionsRange
+  fauto
+macro_rules | `(tactic| ftail) => `(tactic| refine FPost.mono (positionsRange_fuel _ _ _) (fun a ha => by fside))
+
+theorem parsePositions_fuel (s : RS) (h : 1 * s.rest.length + 1 ≤ s.fuel) : FPost (parsePositions s) (FQ 1 1 s) := by
+  unfold parsePositions
+  try dsimp only
+  fb
+  refine FPost.ite (FPost.perr _) ?_
+  refine FPost.bind (iter_fuel 0 0 _ (fun s hs => ?_) _ (by fside)) (fun a ha => ?_)
+  · fauto
+  · fauto
+macro_rules | `(tactic| fbind) => `(tactic| refine FPost.bind (parsePositions_fuel _ (by fside)) ?_)
+
+theorem parseCharset_fuel (s : RS) (h : 1 * s.rest.length + 1 ≤ s.fuel) : FPost (parseCharset s) (FQ 1 1 s) := by
+  unfold parseCharset
+  refine FPost.bind (getCharMatrix_fuel _ _) (fun m _ => ?_)
+  fauto
+macro_rules | `(tactic| fbind) => `(tactic| refine FPost.bind (parseCharset_fuel _ (by fside)) ?_)
+
+theorem setsBlock_fuel (s : RS) (h : 3 * s.rest.length + 4 ≤ s.fuel) : FPost (setsBlock s) (FQ 3 4 s) := by
+  unfold setsBlock
+  fb
+  refine FPost.bind (iter_fuel 1 1 _ (fun s hs => ?_) _ (by fside)) (fun a ha => ?_)
+  · fauto
+  · fauto
+
+theorem skipToBegin_fuel (s : RS) (h : 1 * s.rest.length + 1 ≤ s.fuel) : FPost (skipToBegin s) (FQ 1 1 s) := by
+  unfold skipToBegin
+  refine FPost.mono (iter_fuel 0 0 _ (fun s hs => ?_) _ (by fside)) (fun a ha => by fside)
+  fauto
+macro_rules | `(tactic| fbind) => `(tactic| refine FPost.bind (skipToBegin_fuel _ (by fside)) ?_)
+
+theorem readBlock_fuel (sy : Syms) (s : RS) (h : 10 * s.rest.length + 7 ≤ s.fuel) : FPost (readBlock sy s) (FQ 10 7 s) := by
+  unfold readBlock
+  fb
+  fb
+  refine FPost.ite (FPost.mono (taxaBlock_fuel _ (by fside)) (fun a ha => by fside)) ?_
+  refine FPost.ite (FPost.mono (charsBlock_fuel _ _ (by fside)) (fun a ha => by fside)) ?_
+  refine FPost.ite (FPost.mono (treesBlock_fuel _ (by fside)) (fun a ha => by fside)) ?_
+  refine FPost.ite (FPost.mono (setsBlock_fuel _ (by fside)) (fun a ha => by fside)) ?_
+  refine FPost.ite (FPost.perr _) ?_
+  exact FPost.mono (consumeToEnd_fuel _ _ (by fside)) (fun a ha => by fside)
+macro_rules | `(tactic| fbind) => `(tactic| refine FPost.bind (readBlock_fuel _ _ (by fside)) ?_)
+
+/-- **the whole NEXUS reader within its budget**: `nexusFuel |text|` rounds are enough, on any text -/
+theorem readNexus_fuel (sy : Syms) (text : List Char) : FPost (readNexus sy text) (fun _ => True) := by
+  unfold readNexus nexusFuel
+  fb
+  split
+  · ffin
+  · refine FPost.ite (FPost.perr _) ?_
+    refine FPost.mono (iter_fuel 10 7 _ (fun s hs => ?_) _ (by fside)) (fun _ _ => trivial)
+    fauto
+
+end DendroModel.C20.Aux
+
 namespace DendroModel.C20
 open DendroModel DendroModel.C20.Aux
 
@@ -1749,6 +2035,29 @@ dereferences of the unrepaired code have no counterpart in the model: tokens rea
 `List Char`, tokens read with `next_token` are `Option` and every use of them is a case distinction.) -/
 theorem nexus_never_internal (sy : Syms) (text : List Char) (w : String) : readNexus sy text ≠ .error (.internal w) :=
   (readNexus_post sy text).1 w
+
+/-- **A global, linear bound on the work of the NEXUS reader, for every outcome.**  `readNexus` starts with a budget of
+`nexusFuel |text| = 18·|text| + 8` loop rounds; every round of every loop of the reader — the block loop, the TAXA /
+CHARACTERS / TREES / SETS block loops, the statement loops inside them (DIMENSIONS, FORMAT and its SYMBOLS list, TAXLABELS,
+LINK, TRANSLATE, the TREE-statement loop, CHARSET positions), the MATRIX row loop, the cell loop of a row and the loop over a
+`{..}` / `(..)` multistate group, `skip_to_semicolon`, `_consume_to_end_of_block` — takes one unit *before* it runs (also the
+last round of a loop, which only finds the exit condition true), and a round that finds the budget empty ends the read with
+the marker `Stop.fuel`.  That marker is unreachable, for every symbol table and every text, complete, corrupted or cut:
+so on every input, whether the read ends in a result or in a parse error, all loops together go round at most
+`18·|text| + 8` times — linear in the input, whatever the nesting of loops.  (Each round costs a bounded number of
+tokenizer calls plus the inner loops, which are charged themselves; the tokenizer's own character work is
+`token_count_bounded` / `tokenizer_progress`; the Newick statement machine inside a TREE statement has its own linear
+bound, `newick_steps_linear`.)  The driver prints the rounds used next to this budget. -/
+theorem nexus_fuel_suffices (sy : Syms) (text : List Char) : readNexus sy text ≠ .error .fuel :=
+  (readNexus_fuel sy text).1
+
+/-- **The loop rule for the budget** (about the driver's `iter`): a body that needs `a·|input| + b` units and uses at most
+`a·consumed + b` gives a loop that needs `(a+b+1)·|input| + b + 1` and uses at most `(a+b+1)·consumed + b + 1`. -/
+theorem reader_loop_fuel_rule (a b : Nat) (body : RS → R (Bool × RS))
+    (hb : ∀ s, a * s.rest.length + b ≤ s.fuel → FPost (body s) (fun p => FQ a b s p.2))
+    (s : RS) (h : (a + b + 1) * s.rest.length + (b + 1) ≤ s.fuel) :
+    iter body s ≠ .error .fuel ∧ ∀ s', iter body s = .ok s' → FQ (a + b + 1) (b + 1) s s' :=
+  iter_fuel a b body hb s h
 
 /-- **Declared versus found (NEXUS MATRIX)** — about one call of `parseMatrix` from an arbitrary state (the two guards
 of `matrixCheck`); lifted to the `mats` that `readNexus` finally returns by `nexus_result_dims`.  Whenever `_parse_matrix_statement` returns, NTAX and NCHAR were declared
@@ -2103,6 +2412,33 @@ end DendroModel.C20.Aux
 namespace DendroModel.C20
 open DendroModel DendroModel.C20.Aux
 
+/-- **A CHARSET range costs at most NCHAR, whatever number the document writes.**  `stepRange start stop step max` — the positions
+`_parse_positions` adds for `start - stop \ step` — are all inside the matrix, and there are at most `max + 1` of them: the
+work does not depend on `stop` (the unrepaired code walked `range(start, stop + 1, step)` and hung on `1-99999999999`). -/
+theorem charset_range_bounded (start stop step max : Nat) (hstep : 0 < step) :
+    (∀ q ∈ stepRange start stop step max, q ≤ max) ∧ (stepRange start stop step max).length ≤ max + 1 := by
+  refine ⟨?_, ?_⟩
+  · intro q hq
+    unfold stepRange at hq
+    simp only [List.mem_map, List.mem_range] at hq
+    obtain ⟨k, hk, rfl⟩ := hq
+    have h1 : (k + 1) * step ≤ min stop max + 1 - start + step - 1 := (Nat.le_div_iff_mul_le hstep).mp hk
+    rw [Nat.add_mul, Nat.one_mul] at h1
+    have : min stop max ≤ max := Nat.min_le_right _ _
+    omega
+  · unfold stepRange
+    simp only [List.length_map, List.length_range]
+    have hm : min stop max ≤ max := Nat.min_le_right _ _
+    have h2 : (min stop max + 1 - start + step - 1) / step < max + 1 + 1 := by
+      rw [Nat.div_lt_iff_lt_mul hstep]
+      have : max + 1 + 1 ≤ (max + 1 + 1) * step := Nat.le_mul_of_pos_right _ hstep
+      have h3 : (max + 1 + 1) * step = (max + 1) * step + step := by rw [Nat.add_mul, Nat.one_mul]
+      have h4 : max + 1 ≤ (max + 1) * step := Nat.le_mul_of_pos_right _ hstep
+      omega
+    omega
+
+example : stepRange 1 99999999999 2 5 = [1, 3, 5] := by decide
+
 /-- **CHARSET positions stay inside the matrix.**  Whenever `_parse_positions` returns, every (1-based) position of
 the list is at most the declared NCHAR — single positions, ranges, `.`, `ALL` and stepped ranges alike. -/
 theorem charset_positions_in_range (s s' : RS) (h : parsePositions s = .ok s') : ∀ q ∈ s'.positions, q ≤ s.nchar.getD 0 :=
@@ -2133,6 +2469,7 @@ theorem OkImp.bind' {α β : Type} {x : R α} {g : α → R β} {Q1 : α → Pro
 /-- **loop rule with invariant and exit condition**: an invariant of the body is an invariant of the loop, and a loop that
 returns has seen its body stop (`false`), so whatever the body guarantees on stopping holds of the result -/
 theorem iter_spec (b : RS → R (Bool × RS)) (I E : RS → Prop)
+    (hfuel : ∀ s n, I s → I { s with fuel := n })
     (hb : ∀ s, I s → OkImp (b s) (fun p => I p.2 ∧ (p.1 = false → E p.2))) :
     ∀ s, I s → OkImp (iter b s) (fun s' => I s' ∧ E s') := by
   have key : ∀ (n : Nat) (s : RS), s.rest.length ≤ n → I s → OkImp (iter b s) (fun s' => I s' ∧ E s') := by
@@ -2143,8 +2480,10 @@ theorem iter_spec (b : RS → R (Bool × RS)) (I E : RS → Prop)
       rw [iter]
       split
       · intro a ha; cases ha
+      split
+      · intro a ha; cases ha
       · rename_i s1 h1
-        have := hb s hi _ h1
+        have := hb _ (hfuel s _ hi) _ h1
         exact OkImp.ok ⟨this.1, this.2 rfl⟩
       · rename_i s1 h1
         split
@@ -2155,13 +2494,15 @@ theorem iter_spec (b : RS → R (Bool × RS)) (I E : RS → Prop)
       rw [iter]
       split
       · intro a ha; cases ha
+      split
+      · intro a ha; cases ha
       · rename_i s1 h1
-        have := hb s hi _ h1
+        have := hb _ (hfuel s _ hi) _ h1
         exact OkImp.ok ⟨this.1, this.2 rfl⟩
       · rename_i s1 h1
         split
         · rename_i hlt
-          exact ih s1 (by omega) (hb s hi _ h1).1
+          exact ih s1 (by omega) (hb _ (hfuel s _ hi) _ h1).1
         · intro a ha; cases ha
   exact fun s hi => key s.rest.length s (Nat.le_refl _) hi
 
@@ -2172,7 +2513,7 @@ theorem parseDimensions_exit (s : RS) : OkImp (parseDimensions s) (fun s' => s'.
   refine OkImp.bind ?_
   rintro ⟨t, s1⟩
   try dsimp only
-  refine OkImp.mono (iter_spec _ (fun _ => True) (fun s' => s'.stok = semi.text) ?_ _ trivial) (fun a h => h.2)
+  refine OkImp.mono (iter_spec _ (fun _ => True) (fun s' => s'.stok = semi.text) (fun _ _ h => h) ?_ _ trivial) (fun a h => h.2)
   intro s _
   try dsimp only
   refine OkImp.ite (fun h => OkImp.pure ⟨trivial, fun _ => by simpa using h⟩) (fun _ => ?_)
@@ -2187,7 +2528,7 @@ theorem parseTaxlabels_exit (i : Nat) (s : RS) : OkImp (parseTaxlabels i s) (fun
   refine OkImp.bind ?_
   rintro ⟨t, s1⟩
   try dsimp only
-  refine OkImp.mono (iter_spec _ (fun _ => True) (fun s' => s'.stok = semi.text ∧ s'.quoted = false) ?_ _ trivial) (fun a h => h.2)
+  refine OkImp.mono (iter_spec _ (fun _ => True) (fun s' => s'.stok = semi.text ∧ s'.quoted = false) (fun _ _ h => h) ?_ _ trivial) (fun a h => h.2)
   intro s _
   try dsimp only
   refine OkImp.ite (fun h => OkImp.pure ⟨trivial, fun _ => by simpa using h⟩) (fun _ => ?_)
@@ -2202,7 +2543,7 @@ theorem parseLink_exit (s : RS) : OkImp (parseLink s) (fun s' => s'.stok = semi.
   refine OkImp.bind ?_
   rintro ⟨t, s1⟩
   try dsimp only
-  refine OkImp.mono (iter_spec _ (fun _ => True) (fun s' => s'.stok = semi.text) ?_ _ trivial) (fun a h => h.2)
+  refine OkImp.mono (iter_spec _ (fun _ => True) (fun s' => s'.stok = semi.text) (fun _ _ h => h) ?_ _ trivial) (fun a h => h.2)
   intro s _
   try dsimp only
   refine OkImp.ite (fun h => OkImp.pure ⟨trivial, fun _ => by simpa using h⟩) (fun _ => ?_)
@@ -2286,7 +2627,7 @@ theorem parseFormat_exit (s : RS) : OkImp (parseFormat s) (fun s' => s'.stok = s
   refine OkImp.bind ?_
   rintro ⟨t, s1⟩
   try dsimp only
-  refine OkImp.mono (iter_spec _ (fun _ => True) (fun s' => s'.stok = semi.text) ?_ _ trivial) (fun a h => h.2)
+  refine OkImp.mono (iter_spec _ (fun _ => True) (fun s' => s'.stok = semi.text) (fun _ _ h => h) ?_ _ trivial) (fun a h => h.2)
   intro s _
   try dsimp only
   refine OkImp.ite (fun h => OkImp.pure ⟨trivial, fun _ => by simpa using h⟩) (fun _ => ?_)
@@ -2310,7 +2651,7 @@ theorem nextTok_btok (s : RS) : OkImp (nextTok s) (fun p => p.2.btok = s.btok) :
 
 theorem skipToSemi_btok (s : RS) : OkImp (skipToSemi s) (fun s' => s'.btok = s.btok) := by
   unfold skipToSemi
-  refine OkImp.mono (iter_spec _ (fun x => x.btok = s.btok) (fun _ => True) ?_ s rfl) (fun a h => h.1)
+  refine OkImp.mono (iter_spec _ (fun x => x.btok = s.btok) (fun _ => True) (fun _ _ h => h) ?_ s rfl) (fun a h => h.1)
   intro s1 h1
   refine OkImp.bind' (nextTok_btok s1) ?_
   rintro ⟨t, s2⟩ h2
@@ -2321,7 +2662,7 @@ theorem taxaBlock_exit (s : RS) : OkImp (taxaBlock s) (fun s' => isEnd s'.btok =
   refine OkImp.bind ?_
   intro s1
   refine OkImp.bind' (Q1 := fun s2 => isEnd s2.btok = true) ?_ ?_
-  · refine OkImp.mono (iter_spec _ (fun _ => True) (fun s' => isEnd s'.btok = true) ?_ _ trivial) (fun a h => h.2)
+  · refine OkImp.mono (iter_spec _ (fun _ => True) (fun s' => isEnd s'.btok = true) (fun _ _ h => h) ?_ _ trivial) (fun a h => h.2)
     intro s2 _
     try dsimp only
     refine OkImp.ite (fun h => OkImp.pure ⟨trivial, fun _ => h⟩) (fun _ => ?_)
@@ -2350,9 +2691,10 @@ open DendroModel DendroModel.C20.Aux
 invariant of the loop, and a loop that returns a value has seen its body stop, so what the body guarantees on stopping
 holds of the result. -/
 theorem reader_loop_exit_rule (b : RS → R (Bool × RS)) (I E : RS → Prop)
+    (hfuel : ∀ s n, I s → I { s with fuel := n })
     (hb : ∀ s, I s → ∀ p, b s = .ok p → I p.2 ∧ (p.1 = false → E p.2)) (s s' : RS) (hi : I s) (h : iter b s = .ok s') :
     I s' ∧ E s' :=
-  iter_spec b I E hb s hi s' h
+  iter_spec b I E hfuel hb s hi s' h
 
 /-- **A statement that is cut short is rejected.**  The statement parsers behind the anchored defect ("a NEXUS file cut
 inside DIMENSIONS / TAXLABELS / LINK / FORMAT spins") return a value only with the terminating `;` as their current
@@ -2383,9 +2725,10 @@ namespace DendroModel.C20.Aux
 open DendroModel DendroModel.C20
 
 /-! ### what happens to `mats`: every function of the reader except `matrixCheck` leaves it alone -/
-theorem iter_inv (b : RS → R (Bool × RS)) (I : RS → Prop) (hb : ∀ s, I s → OkImp (b s) (fun p => I p.2)) :
+theorem iter_inv (b : RS → R (Bool × RS)) (I : RS → Prop) (hfuel : ∀ s n, I s → I { s with fuel := n })
+    (hb : ∀ s, I s → OkImp (b s) (fun p => I p.2)) :
     ∀ s, I s → OkImp (iter b s) I :=
-  fun s hi => OkImp.mono (iter_spec b I (fun _ => True) (fun s hs => OkImp.mono (hb s hs) (fun p hp => ⟨hp, fun _ => trivial⟩)) s hi) (fun a h => h.1)
+  fun s hi => OkImp.mono (iter_spec b I (fun _ => True) hfuel (fun s hs => OkImp.mono (hb s hs) (fun p hp => ⟨hp, fun _ => trivial⟩)) s hi) (fun a h => h.1)
 
 theorem OkImp.of_bind_pure {α : Type} {x : R α} {Q : α → Prop} (h : OkImp (x >>= Pure.pure) Q) : OkImp x Q := by
   intro a ha
@@ -2420,8 +2763,8 @@ macro "mstep" : tactic => `(tactic| first
   | mfin
   | (mbind; intro p hp; (try (have hprod : p = (p.1, p.2) := rfl; clear hprod; rcases p with ⟨_, _⟩)); (try dsimp only at *))
   | refine OkImp.ite (fun _ => ?_) (fun _ => ?_)
-  | (refine iter_inv _ (fun x => Q x.mats) (fun s hs => ?_) _ (by mside); (try dsimp only at *))
-  | (refine OkImp.bind' (iter_inv _ (fun x => Q x.mats) (fun s hs => ?_) _ (by mside)) (fun s hs => ?_) <;> (try dsimp only at *))
+  | (refine iter_inv _ (fun x => Q x.mats) (fun _ _ h => h) (fun s hs => ?_) _ (by mside); (try dsimp only at *))
+  | (refine OkImp.bind' (iter_inv _ (fun x => Q x.mats) (fun _ _ h => h) (fun s hs => ?_) _ (by mside)) (fun s hs => ?_) <;> (try dsimp only at *))
   | mgen
   | (refine OkImp.bind (fun _ => ?_))
   | split
@@ -2598,7 +2941,7 @@ theorem readNexus_good (sy : Syms) (text : List Char) : OkImp (readNexus sy text
   split
   · exact OkImp.perr _
   · refine OkImp.ite (fun _ => OkImp.perr _) (fun _ => ?_)
-    refine iter_inv _ (fun x => GoodMats x.mats) ?_ s1 h1
+    refine iter_inv _ (fun x => GoodMats x.mats) (fun _ _ h => h) ?_ s1 h1
     intro s2 h2
     refine OkImp.ite (fun _ => OkImp.pure h2) (fun _ => ?_)
     refine OkImp.bind' (readBlock_mats GoodMats hm sy s2 h2) ?_
@@ -2632,13 +2975,6 @@ def runSteps (k : Cfg) (st : NState) : Nat :=
 termination_by st.measure
 decreasing_by exact step_decreases k st st' h
 
-/-- the number of times `iter` runs its body from a state (a ghost counter over the driver's own `iter`) -/
-def iterRounds (body : RS → R (Bool × RS)) (s : RS) : Nat :=
-  match body s with
-  | .ok (true, s') => if s'.rest.length < s.rest.length then 1 + iterRounds body s' else 1
-  | _ => 1
-termination_by s.rest.length
-
 /-- **Linear number of machine steps, Newick.**  `runSteps` is a ghost counter defined in this file next to `run`
 (same recursion over the driver's `step`; the driver itself does not count).  From any state the machine takes at most
 `3·|unread input| + 3` steps, whatever the nesting — a restatement of the termination measure (`step_decreases`) as a
@@ -2669,34 +3005,6 @@ theorem newick_steps_linear (k : Cfg) (st : NState) : runSteps k st ≤ 3 * st.r
   unfold NState.measure at h1
   omega
 
-/-- **Linear number of rounds of a reader loop.**  `iterRounds` is a ghost counter defined in this file next to `iter`.
-A loop runs its body at most `|unread input| + 1` times.  This holds for any body because `iter` refuses to continue
-without progress; its content comes from `nexus_never_internal`, which shows that this refusal never happens in `readNexus`,
-i.e. the real loops do make that progress. -/
-theorem reader_loop_rounds_linear (body : RS → R (Bool × RS)) (s : RS) : iterRounds body s ≤ s.rest.length + 1 := by
-  have key : ∀ (n : Nat) (s : RS), s.rest.length ≤ n → iterRounds body s ≤ s.rest.length + 1 := by
-    intro n
-    induction n with
-    | zero =>
-      intro s hl
-      rw [iterRounds]
-      split
-      · split
-        · omega
-        · omega
-      · omega
-    | succ n ih =>
-      intro s hl
-      rw [iterRounds]
-      split
-      · split
-        · rename_i s' _ hlt
-          have := ih s' (by omega)
-          omega
-        · omega
-      · omega
-  exact key s.rest.length s (Nat.le_refl _)
-
 /-- **Only two outcomes on any text, in particular on any truncation.**  (The name is historical; what is stated is
 the dichotomy, not that a cut yields an error — for that see `statement_needs_semicolon` / `taxa_block_needs_end`;
 `doc.take n` ranges over all texts.)  Each of the
@@ -2716,6 +3024,7 @@ theorem eof_is_parse_error (sy : Syms) (sym : Char → Bool) (strict interleaved
       cases e with
       | parse e => exact Or.inr ⟨e, rfl⟩
       | internal w => exact absurd h (nexus_never_internal sy _ w)
+      | fuel => exact absurd h (nexus_fuel_suffices sy _)
   · cases h : readNewick (doc.take n) with
     | ok ts => exact Or.inl ⟨ts, rfl⟩
     | err e => exact Or.inr ⟨e, rfl⟩
@@ -2736,6 +3045,83 @@ theorem rowFor_in_range (i : Nat) (label : List Char) (s s' : RS) (r : Nat) (h :
     r < s'.rows.length ∧ s'.rest = s.rest :=
   ⟨((rowFor_post i label s).2 (r, s') h).2, ((rowFor_post i label s).2 (r, s') h).1⟩
 
+/-! ### Tie A: the regenerated constants of the readers (Gen/C20Consts.lean) against the model's own -/
+
+/-- membership of a token in a list of keywords -/
+def isKeyword (ks : List String) (t : Option (List Char)) : Bool := ks.any (fun k => t == some k.toList)
+
+/-- the branch a block name takes according to the regenerated groups: the group that contains `name`, if it does not raise -/
+def genInGroupOf (name : String) (t : Option (List Char)) : Bool :=
+  C20Consts.blockGroups.any (fun g => g.1.contains name && !g.2 && isKeyword g.1 t)
+def genRaises (t : Option (List Char)) : Bool := C20Consts.blockGroups.any (fun g => g.2 && isKeyword g.1 t)
+def genBlockKind (t : Option (List Char)) : Nat :=
+  if genInGroupOf "TAXA" t then 0 else if genInGroupOf "CHARACTERS" t then 1 else if genInGroupOf "TREES" t then 2
+  else if genInGroupOf "SETS" t then 3 else if genRaises t then 4 else 5
+
+/-- **Tie A — block names.**  The branch of `_parse_nexus_stream` that the model's `blockKind` (run by `readBlock`) selects for a
+token is the one the regenerated groups of block names select: same names, same synonyms, same raising branch. -/
+theorem block_names_bridge (t : Option (List Char)) : blockKind t = genBlockKind t := by
+  unfold blockKind genBlockKind genInGroupOf genRaises isKeyword C20Consts.blockGroups kw
+  simp only [List.any_cons, List.any_nil, List.contains_cons, List.contains_nil, String.reduceBEq, Bool.or_false, Bool.and_true,
+    Bool.not_false, Bool.not_true, Bool.and_false, Bool.false_and, Bool.false_or, Bool.true_and, Bool.or_assoc]
+  generalize (t == some "TAXA".toList) = b1
+  generalize (t == some "CHARACTERS".toList) = b2
+  generalize (t == some "DATA".toList) = b3
+  generalize (t == some "TREES".toList) = b4
+  generalize (t == some "SETS".toList) = b5
+  generalize (t == some "ASSUMPTIONS".toList) = b6
+  generalize (t == some "CODONS".toList) = b7
+  generalize (t == some "BEGIN".toList) = b8
+  revert b1 b2 b3 b4 b5 b6 b7 b8
+  decide
+
+/-- **Tie A — end of block.**  The model's `isEnd` accepts exactly the regenerated end-of-block keywords. -/
+theorem end_keywords_bridge (t : Option (List Char)) : isEnd t = isKeyword C20Consts.endKeywords t := by
+  unfold isEnd isKeyword C20Consts.endKeywords kw
+  simp only [List.any_cons, List.any_nil, Bool.or_false]
+
+def genDT (t : List Char) : String :=
+  ((C20Consts.datatypeTable.find? (fun e => e.1.toList == t)).map (·.2)).getD C20Consts.datatypeDefault
+
+/-- **Tie A — DATATYPE keywords.**  The data type the model's `dtOfKeyword` (run by `fmtDatatype`) selects, STANDARD for any
+other keyword, is the one of the regenerated table, and the symbols installed with the default are the regenerated ones. -/
+theorem datatype_bridge (t : List Char) :
+    ((dtOfKeyword t).getD .standard).name = genDT t ∧ kw "0123456789" = C20Consts.datatypeDefaultSymbols.toList := by
+  refine ⟨?_, rfl⟩
+  unfold dtOfKeyword genDT C20Consts.datatypeTable C20Consts.datatypeDefault kw
+  simp only [List.find?_cons, List.find?_nil]
+  by_cases h1 : t = "DNA".toList
+  · subst h1; decide
+  by_cases h2 : t = "NUCLEOTIDES".toList
+  · subst h2; decide
+  by_cases h3 : t = "RNA".toList
+  · subst h3; decide
+  by_cases h4 : t = "NUCLEOTIDE".toList
+  · subst h4; decide
+  by_cases h5 : t = "PROTEIN".toList
+  · subst h5; decide
+  by_cases h6 : t = "CONTINUOUS".toList
+  · subst h6; decide
+  have e : ∀ (k : String), ¬ t = k.toList → (k.toList == t) = false ∧ (t == k.toList) = false := by
+    intro k hk
+    constructor
+    · simp only [beq_eq_false_iff_ne, ne_eq]; exact fun h => hk h.symm
+    · simp only [beq_eq_false_iff_ne, ne_eq]; exact hk
+  simp only [(e _ h1).1, (e _ h2).1, (e _ h3).1, (e _ h4).1, (e _ h5).1, (e _ h6).1, (e _ h1).2, (e _ h2).2, (e _ h3).2, (e _ h4).2,
+    (e _ h5).2, (e _ h6).2, Bool.or_false, Bool.false_eq_true, if_false]
+  rfl
+
+/-- **Tie A — strict PHYLIP label width.**  The model cuts the label where the code does (`line[:w]`, `line[w:]`). -/
+theorem phylip_width_bridge : phyLabelWidth = C20Consts.phylipLabelEnd ∧ phyLabelWidth = C20Consts.phylipSeqStart := by decide
+
+/-- **Tie A — initial FORMAT state.**  Symbols, gap, missing and match characters and the interleave flag of a fresh reader
+state are those `NexusReader.__init__` assigns. -/
+theorem reader_defaults_bridge :
+    ({ rest := [] } : RS).symbols = C20Consts.initSymbols.toList ∧ ({ rest := [] } : RS).gap = C20Consts.initGap.toList ∧
+    ({ rest := [] } : RS).missing = C20Consts.initMissing.toList ∧ ({ rest := [] } : RS).matchc = C20Consts.initMatch.map String.toList ∧
+    ({ rest := [] } : RS).interleave = C20Consts.initInterleave := by decide
+
+
 /-! ### non-vacuity: the hypotheses of the theorems above are satisfiable -/
 
 theorem nextT_semi : nextT {} [';'] = .tok [';'] false [] := by
@@ -2752,11 +3138,23 @@ example : ∃ s', matrixCheck 2 { rest := [], rows := [(0, 2), (1, 2)] } = .ok s
 example : matrixCheck 2 { rest := [], rows := [(0, 2), (1, 1)] } = perr .nexus := rfl
 
 /-- `statement_needs_semicolon`: a DIMENSIONS statement that is complete (`;`) is accepted by the model -/
-example : (parseDimensions { rest := [';'] }).isOk = true := by
+example : (parseDimensions { rest := [';'], fuel := 1 }).isOk = true := by
   unfold parseDimensions requireUcase requireTok
   simp only [nextT_semi, bind, Except.bind, pure, Except.pure]
   rw [iter]
   simp [upper, upperC, semi, Except.isOk, Except.toBool]
+
+/-- `nexus_fuel_suffices` is not vacuous: the marker is a real outcome of the loops when the budget is too small … -/
+example : skipToSemi { rest := ['a', ';'], fuel := 0 } = .error .fuel := by
+  unfold skipToSemi; rw [iter]; rfl
+/-- … and `reader_loop_fuel_rule` applies to the body of `skip_to_semicolon` with `a = b = 0` -/
+example : ∀ s : RS, 0 * s.rest.length + 0 ≤ s.fuel → FPost ((fun (s : RS) => do
+      let (t, s) ← nextTok s
+      pure (!(t == some semi.text) && !s.eof && t.isSome, s)) s) (fun p => FQ 0 0 s p.2) := by
+  intro s _
+  fauto
+/-- the bridges speak about non-trivial values: `DATA` is a synonym of `CHARACTERS`, `NUCLEOTIDES` selects DNA -/
+example : blockKind (some (kw "DATA")) = 1 ∧ genBlockKind (some (kw "DATA")) = 1 ∧ genDT (kw "NUCLEOTIDES") = "dna" := by decide
 
 /-- `reader_loop_rule`: the body of `skip_to_semicolon` is such a body -/
 example : ∃ b : RS → R (Bool × RS), ∀ s, Post (b s) (BodyQ s) :=
